@@ -641,3 +641,239 @@ Fixpoint Corr_eq (a b : list string) : bool :=
   | x :: a', y :: b' => String.eqb x y && Corr_eq a' b'
   | _, _ => false
   end.
+
+(* ------------------------------------------------------------------ same key -> value map *)
+Lemma lookup_in (r : conns) k v : NoDup (keys r) -> (lookup k r = Some v <-> In (k, v) r).
+Proof.
+  induction r as [|[k' v'] r IH]; simpl; intros Hn. { split; [discriminate|tauto]. }
+  inversion Hn as [|? ? Hk Hn']; subst. destruct (String.eqb k k') eqn:E.
+  - apply String.eqb_eq in E. subst k'. split.
+    + intros H. inversion H. left; reflexivity.
+    + intros [H|H]; [inversion H; reflexivity|]. exfalso. apply Hk. apply (in_map fst) in H. exact H.
+  - rewrite (IH Hn'). split; [tauto|]. intros [H|H]; [|exact H].
+    inversion H; subst. rewrite String.eqb_refl in E. discriminate.
+Qed.
+
+Lemma lookup_perm (r1 r2 : conns) : NoDup (keys r1) -> Permutation r1 r2 -> forall k, lookup k r1 = lookup k r2.
+Proof.
+  intros Hn HP k. assert (Hn2 : NoDup (keys r2)) by (apply (Permutation_NoDup (Permutation_map fst HP)); exact Hn).
+  destruct (lookup k r1) as [v|] eqn:E1.
+  - symmetry. apply (lookup_in r2 k v Hn2). apply (Permutation_in _ HP). apply (lookup_in r1 k v Hn). exact E1.
+  - destruct (lookup k r2) as [v|] eqn:E2; [|reflexivity].
+    apply (lookup_in r2 k v Hn2) in E2. apply (Permutation_in _ (Permutation_sym HP)) in E2.
+    apply (lookup_in r1 k v Hn) in E2. congruence.
+Qed.
+
+Lemma nodup_keys_filt P (c : conns) : NoDup (keys c) -> NoDup (keys (filt P c)).
+Proof.
+  induction c as [|[k v] c IH]; simpl; intros Hn. { constructor. }
+  inversion Hn as [|? ? Hk Hn']; subst. unfold filt. simpl. destruct (negb (mem k P)); simpl.
+  - constructor; [|exact (IH Hn')]. intro Hi. apply Hk. exact (keys_filt_in _ _ _ Hi).
+  - exact (IH Hn').
+Qed.
+
+Lemma nodup_pinned_result f c pi : WF f c pi -> NoDup (keys (filt pi c ++ flat_map (fo f) pi)).
+Proof.
+  intros [A B C E F G]. rewrite keys_app. apply nodup_app_intro.
+  - apply nodup_keys_filt. exact A.
+  - clear C F. induction pi as [|k pi IH]; simpl. { constructor. }
+    inversion B as [|? ? Bk B']; subst. rewrite keys_app. apply nodup_app_intro.
+    + apply E. left; reflexivity.
+    + apply IH; [exact B' | intros; apply E; right; assumption | intros k1 k2 x H1 H2; apply G; right; assumption].
+    + intros x Hx Hx2. apply keys_flat_map_in in Hx2. destruct Hx2 as [k' [Q1 Q2]].
+      assert (k <> k') by (intro; subst; tauto).
+      exact (G k k' x (or_introl eq_refl) (or_intror Q1) H Hx Q2).
+  - intros x Hx Hx2. apply keys_flat_map_in in Hx2. destruct Hx2 as [k [Q1 Q2]].
+    apply (F k x Q1 Q2). exact (keys_filt_in _ _ _ Hx).
+Qed.
+
+Lemma pinned_same_map f c pi1 pi2 r1 r2 : WF f c pi1 -> Permutation pi1 pi2 ->
+  run_pinned f pi1 c = Ok r1 -> run_pinned f pi2 c = Ok r2 -> forall k, lookup k r1 = lookup k r2.
+Proof.
+  intros W HP H1 H2. pose proof (pinned_partition f c pi1 pi2 W HP) as HPP. rewrite H1, H2 in HPP.
+  apply lookup_perm; [|exact HPP].
+  destruct (all_ok_dec f pi1) as [Hok|[k [e [Hk He]]]].
+  - rewrite (pinned_closed f c pi1 W Hok) in H1. inversion H1; subst. apply nodup_pinned_result. exact W.
+  - destruct (run_loop_bad (step_pinned f) k (step_pinned_bad f k e He) pi1 Hk c) as [e1 X].
+    unfold run_pinned in H1. congruence.
+Qed.
+
+(* ------------------------------------------------------------------ module level: PortRefs of several instances *)
+Definition msubst (f : string -> flat_fn) (D : list bref) (m : mstate) : mstate :=
+  map (fun ic => (fst ic, subst (f (fst ic)) (ports_of (fst ic) D) (snd ic))) m.
+
+Lemma ports_of_app i a b : ports_of i (a ++ b) = ports_of i a ++ ports_of i b.
+Proof. unfold ports_of. rewrite filter_app, map_app. reflexivity. Qed.
+
+Lemma ports_of_perm i a b : Permutation a b -> Permutation (ports_of i a) (ports_of i b).
+Proof. intros H. unfold ports_of. apply Permutation_map. apply perm_filter. exact H. Qed.
+
+Lemma wf_prefix f c A B : WF f c (A ++ B) -> WF f c A.
+Proof.
+  intros [H1 H2 H3 H4 H5 H6]. destruct (nodup_app_inv _ _ H2) as [N1 _].
+  constructor.
+  - exact H1.
+  - exact N1.
+  - intros k Hk. apply H3. apply in_or_app; left; exact Hk.
+  - intros k Hk. apply H4. apply in_or_app; left; exact Hk.
+  - intros k x Hk. apply H5. apply in_or_app; left; exact Hk.
+  - intros k1 k2 x Hk1 Hk2. apply H6; apply in_or_app; left; assumption.
+Qed.
+
+(* per-instance well-formedness of a module-level loop *)
+Definition MWF (f : string -> flat_fn) (m : mstate) (D : list bref) : Prop :=
+  NoDup (map fst m) /\ (forall r, In r D -> In (fst r) (map fst m)) /\
+  forall i c, In (i, c) m -> WF (f i) c (ports_of i D).
+
+Lemma upd_inst_hit i g : forall (m : mstate) c c', NoDup (map fst m) -> In (i, c) m -> g c = Ok c' ->
+  upd_inst i g m = Ok (map (fun jc => if String.eqb i (fst jc) then (fst jc, c') else jc) m).
+Proof.
+  induction m as [|[j d] m IH]; simpl; intros c c' Hn Hi Hg. { tauto. }
+  inversion Hn as [|? ? Hj Hn']; subst. destruct (String.eqb i j) eqn:E.
+  - apply String.eqb_eq in E. subst j. destruct Hi as [Hi|Hi].
+    + inversion Hi; subst. rewrite Hg. simpl. f_equal. f_equal.
+      rewrite <- (map_id m) at 1. apply map_ext_in. intros [j d'] Hjd. simpl.
+      destruct (String.eqb i j) eqn:E2; [|reflexivity]. apply String.eqb_eq in E2. subst.
+      exfalso. apply Hj. apply (in_map fst) in Hjd. exact Hjd.
+    + exfalso. apply Hj. apply (in_map fst) in Hi. exact Hi.
+  - destruct Hi as [Hi|Hi]; [inversion Hi; subst; rewrite String.eqb_refl in E; discriminate|].
+    rewrite (IH c c' Hn' Hi Hg). reflexivity.
+Qed.
+
+Lemma mrun_repaired_closed f m : forall pi done,
+  MWF f m (done ++ pi) -> (forall r, In r pi -> exists l, f (fst r) (snd r) = Ok l) ->
+  mrun step_repaired f pi (msubst f done m) = Ok (msubst f (done ++ pi) m).
+Proof.
+  induction pi as [|[i k] pi IH]; intros done W Hok.
+  - rewrite app_nil_r. reflexivity.
+  - destruct W as [W1 [W2 W3]]. cbn [mrun].
+    assert (Hi : In i (map fst m)) by (apply (W2 (i, k)); apply in_or_app; right; left; reflexivity).
+    apply in_map_iff in Hi. destruct Hi as [[i' c] [Hi1 Hi2]]. simpl in Hi1. subst i'.
+    assert (Wc : WF (f i) c (ports_of i done ++ k :: ports_of i pi)).
+    { pose proof (W3 i c Hi2) as Wc. rewrite ports_of_app in Wc. unfold ports_of at 2 in Wc.
+      cbn [filter fst] in Wc. rewrite String.eqb_refl in Wc. cbn [map snd] in Wc. exact Wc. }
+    assert (Wc1 : WF (f i) c (ports_of i done ++ [k])).
+    { replace (ports_of i done ++ k :: ports_of i pi) with ((ports_of i done ++ [k]) ++ ports_of i pi) in Wc
+        by (rewrite <- app_assoc; reflexivity). exact (wf_prefix _ _ _ _ Wc). }
+    assert (Hstep : step_repaired (f i) (subst (f i) (ports_of i done) c) k = Ok (subst (f i) (ports_of i done ++ [k]) c)).
+    { pose proof (run_repaired_closed (f i) c [k] (ports_of i done) Wc1) as H.
+      cbn [run_repaired run_loop] in H.
+      destruct (step_repaired (f i) (subst (f i) (ports_of i done) c) k) eqn:E; simpl in H.
+      - apply H. intros k' [<-|[]]. exact (Hok (i, k) (or_introl eq_refl)).
+      - assert (X : Error e = Ok (subst (f i) (ports_of i done ++ [k]) c)); [|discriminate].
+        apply H. intros k' [<-|[]]. exact (Hok (i, k) (or_introl eq_refl)). }
+    unfold mstep. cbn [fst snd].
+    assert (Hin : In (i, subst (f i) (ports_of i done) c) (msubst f done m)).
+    { unfold msubst. apply in_map_iff. exists (i, c). split; [reflexivity | exact Hi2]. }
+    assert (Hnd : NoDup (map fst (msubst f done m))).
+    { unfold msubst. rewrite map_map. simpl. exact W1. }
+    rewrite (upd_inst_hit i _ _ _ _ Hnd Hin Hstep). simpl.
+    replace (map _ (msubst f done m)) with (msubst f (done ++ [(i, k)]) m).
+    + replace (done ++ (i, k) :: pi) with ((done ++ [(i, k)]) ++ pi) by (rewrite <- app_assoc; reflexivity).
+      apply IH.
+      * rewrite <- app_assoc. exact (conj W1 (conj W2 W3)).
+      * intros r Hr. apply Hok. right; exact Hr.
+    + unfold msubst. rewrite map_map. apply map_ext_in. intros [j d] Hjd. simpl.
+      rewrite ports_of_app. destruct (String.eqb i j) eqn:E.
+      * apply String.eqb_eq in E. subst j.
+        assert (d = c). { clear -W1 Hjd Hi2. induction m as [|[a b] m IH]; simpl in *; [tauto|].
+          inversion W1; subst. destruct Hjd as [H|H]; destruct Hi2 as [H'|H'].
+          - congruence.
+          - inversion H; subst. exfalso. apply H1. apply (in_map fst) in H'. exact H'.
+          - inversion H'; subst. exfalso. apply H1. apply (in_map fst) in H. exact H.
+          - auto. }
+        subst d. unfold ports_of at 2. simpl. rewrite String.eqb_refl. reflexivity.
+      * unfold ports_of at 2. simpl. rewrite E. simpl. rewrite app_nil_r. reflexivity.
+Qed.
+
+Lemma msubst_nil f m : msubst f [] m = m.
+Proof.
+  unfold msubst. rewrite <- (map_id m) at 2. apply map_ext. intros [i c]. simpl.
+  unfold ports_of. simpl. rewrite subst_nil. reflexivity.
+Qed.
+
+Lemma msubst_perm f D1 D2 m : Permutation D1 D2 -> msubst f D1 m = msubst f D2 m.
+Proof.
+  intros HP. unfold msubst. apply map_ext. intros [i c]. simpl. f_equal.
+  apply subst_ext. intros x _. apply mem_perm. apply ports_of_perm. exact HP.
+Qed.
+
+Lemma mwf_perm f m D1 D2 : Permutation D1 D2 -> MWF f m D1 -> MWF f m D2.
+Proof.
+  intros HP [A [B C]]. split; [|split].
+  - exact A.
+  - intros r Hr. apply B. apply (Permutation_in _ (Permutation_sym HP)). exact Hr.
+  - intros j c Hic. apply (wf_perm _ _ (ports_of j D1)); [apply ports_of_perm; exact HP | exact (C j c Hic)].
+Qed.
+
+Lemma upd_inst_err i g (Hg : forall c e, g c = Error e -> e = EMissing) :
+  forall (m : mstate) e, upd_inst i g m = Error e -> e = EMissing.
+Proof.
+  induction m as [|[j c] m IH]; simpl; intros e H. { inversion H; reflexivity. }
+  destruct (String.eqb i j).
+  - destruct (g c) eqn:E; simpl in H; [discriminate | inversion H; subst; exact (Hg _ _ E)].
+  - destruct (upd_inst i g m) eqn:E; simpl in H; [discriminate | inversion H; subst; exact (IH _ eq_refl)].
+Qed.
+
+Lemma upd_inst_bad i g (Hg : forall c, exists e, g c = Error e) :
+  forall (m : mstate), exists e, upd_inst i g m = Error e.
+Proof.
+  induction m as [|[j c] m IH]; simpl. { eauto. }
+  destruct (String.eqb i j).
+  - destruct (Hg c) as [e He]. rewrite He. simpl. eauto.
+  - destruct IH as [e He]. rewrite He. simpl. eauto.
+Qed.
+
+Lemma mrun_err f pi : forall m e, mrun step_repaired f pi m = Error e -> e = EMissing.
+Proof.
+  induction pi as [|r pi IH]; simpl; intros m e H. { discriminate. }
+  destruct (mstep step_repaired f m r) eqn:E; simpl in H; [exact (IH _ _ H)|].
+  inversion H; subst. unfold mstep in E. apply (upd_inst_err _ _ (fun c e => step_repaired_err (f (fst r)) c (snd r) e) _ _ E).
+Qed.
+
+Lemma mrun_bad f r e pi : f (fst r) (snd r) = Error e -> In r pi ->
+  forall m, exists e', mrun step_repaired f pi m = Error e'.
+Proof.
+  intros He. induction pi as [|r' pi IH]; simpl; intros Hi m. { tauto. }
+  destruct (mstep step_repaired f m r') eqn:E; simpl; [|eauto].
+  destruct Hi as [->|Hi]; [|exact (IH Hi _)].
+  unfold mstep in E. destruct (upd_inst_bad (fst r) _ (step_repaired_bad (f (fst r)) (snd r) e He) m) as [e' He'].
+  congruence.
+Qed.
+
+Lemma mall_ok_dec (f : string -> flat_fn) (pi : list (string * key)) :
+  (forall r, In r pi -> exists l, f (fst r) (snd r) = Ok l) \/ (exists r e, In r pi /\ f (fst r) (snd r) = Error e).
+Proof.
+  induction pi as [|r pi IH]. { left. intros r []. }
+  destruct (f (fst r) (snd r)) eqn:E.
+  - destruct IH as [IH|[r' [e [A B]]]]; [left | right; exists r', e; split; [right; exact A | exact B]].
+    intros r' [<-|Hr]; eauto.
+  - right. exists r, e. split; [left; reflexivity | exact E].
+Qed.
+
+Lemma mrepaired_order_irrelevant f m pi1 pi2 : MWF f m pi1 -> Permutation pi1 pi2 ->
+  mrun step_repaired f pi1 m = mrun step_repaired f pi2 m.
+Proof.
+  intros W HP. destruct (mall_ok_dec f pi1) as [Hok|[r [e [Hr He]]]].
+  - pose proof (mrun_repaired_closed f m pi1 [] W Hok) as H1. rewrite msubst_nil in H1. simpl in H1.
+    assert (Hok2 : forall r, In r pi2 -> exists l, f (fst r) (snd r) = Ok l).
+    { intros r Hr. apply Hok. apply (Permutation_in _ (Permutation_sym HP)). exact Hr. }
+    pose proof (mrun_repaired_closed f m pi2 [] (mwf_perm _ _ _ _ HP W) Hok2) as H2. rewrite msubst_nil in H2. simpl in H2.
+    rewrite H1, H2. f_equal. apply msubst_perm. exact HP.
+  - destruct (mrun_bad f r e pi1 He Hr m) as [e1 H1].
+    destruct (mrun_bad f r e pi2 He (Permutation_in _ HP Hr) m) as [e2 H2].
+    rewrite H1, H2, (mrun_err _ _ _ _ H1), (mrun_err _ _ _ _ H2). reflexivity.
+Qed.
+
+Definition mwf (f : string -> flat_fn) (m : mstate) (D : list (string * key)) : bool :=
+  nodupb (map fst m) && forallb (fun r => mem (fst r) (map fst m)) D &&
+  forallb (fun ic => wf_loop (f (fst ic)) (snd ic) (ports_of (fst ic) D)) m.
+
+Lemma mwf_spec f m D : mwf f m D = true -> MWF f m D.
+Proof.
+  unfold mwf. intros H. apply andb_prop in H. destruct H as [H H3]. apply andb_prop in H. destruct H as [H1 H2].
+  rewrite forallb_forall in H2, H3. split; [|split].
+  - apply nodupb_spec. exact H1.
+  - intros r Hr. apply mem_In. exact (H2 r Hr).
+  - intros j c Hic. apply wf_loop_spec. exact (H3 (j, c) Hic).
+Qed.
